@@ -16,8 +16,87 @@ def scratch_dir(name=None):
     return d
 
 
+# ---------------------------------------------------------------------------
+# the tool as a real process, in one of several ordinary environments
+# ---------------------------------------------------------------------------
+PROC_VARIANTS = ['plain', 'posix', 'opt', 'module', 'elsewhere', 'relative', 'tofile', 'nohome', 'tty_less']
+_proc_variant = None
+PROC_COUNTS = {}
+
+
+def set_proc_variant(v):
+    """None: run_cli works in-process; a name of PROC_VARIANTS: run_cli starts the real tool as a process"""
+    global _proc_variant
+    _proc_variant = v
+
+
+def run_cli_proc(argv, variant='plain', timeout=120):
+    """`peltool.py argv` as a real process.  Same result shape as run_cli (uncaught = the traceback, if any).
+    plain: python <repo>/modules/pel/peltool/peltool.py, UTF-8 locale, stdout a pipe
+    posix: LANG=C LC_ALL=C without Python's locale coercion / UTF-8 mode (stdout is ASCII)
+    opt: python -O        module: python -m pel.peltool.peltool from an empty directory
+    elsewhere: current directory /        relative: started in the directory that holds the first path argument,
+    that argument (and others below it) given as relative paths
+    tofile: stdout and stderr are regular files      nohome: HOME and TMPDIR name nothing, no LANG at all
+    tty_less: stdin closed"""
+    import subprocess
+    import tempfile
+    repo = os.environ.get('VERIF_REPO', '/repo')
+    script = os.path.join(repo, 'modules', 'pel', 'peltool', 'peltool.py')
+    env = {k: v for k, v in os.environ.items() if k not in ('PYTHONUTF8', 'PYTHONIOENCODING', 'PYTHONOPTIMIZE',
+                                                            'LC_ALL', 'LANG', 'LC_CTYPE', 'PYTHONCOERCECLOCALE')}
+    env['PYTHONPATH'] = os.path.join(repo, 'modules')
+    env['PYTHONDONTWRITEBYTECODE'] = '1'
+    env['LANG'] = 'C.UTF-8'
+    cmd = [sys.executable, script]
+    argv = [os.fspath(a) for a in argv]
+    cwd = scratch_dir('proc')
+    if variant == 'posix':
+        env.update(LANG='C', LC_ALL='C', PYTHONCOERCECLOCALE='0', PYTHONUTF8='0')
+    elif variant == 'opt':
+        cmd = [sys.executable, '-O', script]
+    elif variant == 'module':
+        cmd = [sys.executable, '-m', 'pel.peltool.peltool']
+    elif variant == 'elsewhere':
+        cwd = '/'
+    elif variant == 'relative':
+        paths = [a for a in argv if os.path.isabs(a) and os.path.exists(a)]
+        if paths:
+            cwd = os.path.dirname(paths[0].rstrip('/')) or '/'
+            argv = [os.path.relpath(a, cwd) if os.path.isabs(a) and (a + '/').startswith(cwd.rstrip('/') + '/') else a
+                    for a in argv]
+    elif variant == 'nohome':
+        env.pop('LANG', None)
+        env.update(HOME='/nonexistent/verif-home', TMPDIR='/nonexistent/verif-tmp')
+    PROC_COUNTS[variant] = PROC_COUNTS.get(variant, 0) + 1
+    kw = dict(cwd=cwd, env=env, timeout=timeout, stdin=subprocess.DEVNULL)
+    if variant == 'tty_less':
+        kw['stdin'] = None
+        kw['close_fds'] = True
+    try:
+        if variant == 'tofile':
+            with tempfile.TemporaryFile() as fo, tempfile.TemporaryFile() as fe:
+                p = subprocess.run(cmd + argv, stdout=fo, stderr=fe, **kw)
+                fo.seek(0)
+                fe.seek(0)
+                out, err = fo.read(), fe.read()
+        else:
+            if variant == 'tty_less':
+                kw['preexec_fn'] = lambda: os.close(0)
+            p = subprocess.run(cmd + argv, stdout=subprocess.PIPE, stderr=subprocess.PIPE, **kw)
+            out, err = p.stdout, p.stderr
+        code = p.returncode
+    except subprocess.TimeoutExpired:
+        return dict(exit=99, out='', err='', uncaught='no result after %ds (process, %s)' % (timeout, variant), proc=variant)
+    out, err = out.decode('utf-8', 'replace'), err.decode('utf-8', 'replace')
+    return dict(exit=code, out=out, err=err, uncaught=err if 'Traceback (most recent call last)' in err else None,
+                proc=variant)
+
+
 def run_cli(argv, stdout=None, stderr=None):
     """peltool.main() in-process.  Returns dict(exit, out, err, uncaught)."""
+    if _proc_variant and stdout is None and stderr is None:
+        return run_cli_proc(argv, _proc_variant)
     import pel.peltool.peltool as pt
     old = (sys.argv, sys.stdout, sys.stderr)
     # standard output as it is in a UTF-8 terminal or pipe: text that cannot be encoded makes print() fail
